@@ -91,7 +91,7 @@ theorem insertion_dispatch (s : St) (e ty : Nat) (h : (alookup (s.comp e) ty).is
   rw [targets_append, targets_map_reactEnt', targets_map_reactEnt]
 
 theorem insertion_not_inserted (s : St) (e ty : Nat) (h : alookup (s.comp e) ty = none) :
-    applyCmd s (.insReact e ty) = s := by
+    applyCmd s (.insReact e ty) = s.emit (.insNoop e ty) := by
   simp [applyCmd, h]
 
 /-- **Entity event**: listeners scoped to the target entity for that event type, then the any-entity listeners. -/
